@@ -17,6 +17,7 @@ INVARIANTS
   OnlyOwnTopicAcked
   ReplayExact
   ReplayQueueCoversExpect
+  NeverForgotten
 PROPERTIES
   TR_CursorMonotone
 POSTCONDITION TraceAccepted
